@@ -170,18 +170,28 @@ package asm
 // WF part needed here: a target buffer exists; every recorded operand address lies inside the emitted bytes;
 // recorded S8 operand addresses are pairwise distinct (each is the last byte of its own branch instruction).
 
+// Well-formedness of the reference tables, stated over buffer OFFSETS (the very index expressions Finalize uses):
+// every recorded operand lies inside the buffer, S8 operands are pairwise distinct, U16 operand words do not
+// overlap each other nor an S8 operand.
+//@ define OFF8(a, l, i) int(a.danglingS8[l][i]-a.base)
+//@ define OFF16(a, l, i) int(a.danglingU16[l][i]-a.base)
+//@ define WF_S8IN(a) all(l, string, all(i, int, has(a.danglingS8, l) && 0 <= i && i < len(a.danglingS8[l]) ==> OFF8(a, l, i) < len(a.code)))
+//@ define WF_U16IN(a) all(l, string, all(i, int, has(a.danglingU16, l) && 0 <= i && i < len(a.danglingU16[l]) ==> OFF16(a, l, i)+1 < len(a.code)))
+//@ define WF_S8DIST(a) all(l, string, all(i, int, all(m, string, all(j, int, has(a.danglingS8, l) && has(a.danglingS8, m) && 0 <= i && i < len(a.danglingS8[l]) && 0 <= j && j < len(a.danglingS8[m]) && (l != m || i != j) ==> OFF8(a, l, i) != OFF8(a, m, j)))))
+//@ define WF_U16DIST(a) all(l, string, all(i, int, all(m, string, all(j, int, has(a.danglingU16, l) && has(a.danglingU16, m) && 0 <= i && i < len(a.danglingU16[l]) && 0 <= j && j < len(a.danglingU16[m]) && (l != m || i != j) ==> OFF16(a, l, i) != OFF16(a, m, j) && OFF16(a, l, i) != OFF16(a, m, j)+1 && OFF16(a, l, i)+1 != OFF16(a, m, j)))))
+//@ define WF_S8U16(a) all(l, string, all(i, int, all(m, string, all(j, int, has(a.danglingS8, l) && has(a.danglingU16, m) && 0 <= i && i < len(a.danglingS8[l]) && 0 <= j && j < len(a.danglingU16[m]) ==> OFF8(a, l, i) != OFF16(a, m, j) && OFF8(a, l, i) != OFF16(a, m, j)+1))))
+
 //@ func (*Emitter).Finalize
 //@   property C06
 //@   requires !isnil(a.code) && len(a.code) <= 0x1000000
-//@   requires all(l, string, all(i, int, has(a.danglingS8, l) && 0 <= i && i < len(a.danglingS8[l]) ==> a.danglingS8[l][i]-a.base < uint32(len(a.code))))
-//@   requires all(l, string, all(i, int, has(a.danglingU16, l) && 0 <= i && i < len(a.danglingU16[l]) ==> a.danglingU16[l][i]-a.base < uint32(len(a.code)) && a.danglingU16[l][i]-a.base+1 < uint32(len(a.code)) && a.danglingU16[l][i]-a.base+1 > 0))
-//@   requires all(l, string, all(i, int, all(m, string, all(j, int, has(a.danglingS8, l) && has(a.danglingS8, m) && 0 <= i && i < len(a.danglingS8[l]) && 0 <= j && j < len(a.danglingS8[m]) && (l != m || i != j) ==> a.danglingS8[l][i] != a.danglingS8[m][j]))))
-//@   requires all(l, string, all(i, int, all(m, string, all(j, int, has(a.danglingU16, l) && has(a.danglingU16, m) && 0 <= i && i < len(a.danglingU16[l]) && 0 <= j && j < len(a.danglingU16[m]) && (l != m || i != j) ==> a.danglingU16[l][i] != a.danglingU16[m][j] && a.danglingU16[l][i] != a.danglingU16[m][j]+1 && a.danglingU16[l][i]+1 != a.danglingU16[m][j]))))
-//@   requires all(l, string, all(i, int, all(m, string, all(j, int, has(a.danglingS8, l) && has(a.danglingU16, m) && 0 <= i && i < len(a.danglingS8[l]) && 0 <= j && j < len(a.danglingU16[m]) ==> a.danglingS8[l][i] != a.danglingU16[m][j] && a.danglingS8[l][i] != a.danglingU16[m][j]+1))))
+//@   requires WF_S8IN(a) && WF_U16IN(a)
+//@   requires WF_S8DIST(a)
+//@   requires WF_U16DIST(a)
+//@   requires WF_S8U16(a)
 //@   ensures isnil(err) ==> all(l, string, old(has(a.danglingS8, l)) ==> has(a.labels, l)) && all(l, string, old(has(a.danglingU16, l)) ==> has(a.labels, l))
 //@   ensures isnil(err) ==> all(l, string, all(i, int, old(has(a.danglingS8, l)) && 0 <= i && i < old(len(a.danglingS8[l])) ==> int(a.labels[l])-int(old(a.danglingS8[l][i])+1) <= 127 && int(a.labels[l])-int(old(a.danglingS8[l][i])+1) >= -128))
 //@   ensures isnil(err) ==> all(l, string, all(i, int, old(has(a.danglingS8, l)) && 0 <= i && i < old(len(a.danglingS8[l])) ==> a.code[old(a.danglingS8[l][i])-a.base] == uint8(a.labels[l]-(old(a.danglingS8[l][i])+1))))
-//@   ensures isnil(err) ==> all(l, string, all(i, int, old(has(a.danglingU16, l)) && 0 <= i && i < old(len(a.danglingU16[l])) ==> a.code[old(a.danglingU16[l][i])-a.base] == uint8(a.labels[l]) && a.code[old(a.danglingU16[l][i])-a.base+1] == uint8(a.labels[l]>>8)))
+//@   ensures isnil(err) ==> all(l, string, all(i, int, old(has(a.danglingU16, l)) && 0 <= i && i < old(len(a.danglingU16[l])) ==> a.code[old(a.danglingU16[l][i])-a.base] == uint8(a.labels[l]) && a.code[int(old(a.danglingU16[l][i])-a.base)+1] == uint8(a.labels[l]>>8)))
 //@   ensures !isnil(err) ==> any(l, string, (old(has(a.danglingS8, l)) || old(has(a.danglingU16, l))) && !has(a.labels, l)) || any(l, string, any(i, int, old(has(a.danglingS8, l)) && has(a.labels, l) && 0 <= i && i < old(len(a.danglingS8[l])) && !(int(a.labels[l])-int(old(a.danglingS8[l][i])+1) <= 127 && int(a.labels[l])-int(old(a.danglingS8[l][i])+1) >= -128)))
 //@   ensures all(o, int, 0 <= o && o < len(a.code) && a.code[o] != old(a.code[o]) ==> (any(l, string, any(i, int, old(has(a.danglingS8, l)) && 0 <= i && i < old(len(a.danglingS8[l])) && o == int(old(a.danglingS8[l][i])-a.base))) || any(l, string, any(i, int, old(has(a.danglingU16, l)) && 0 <= i && i < old(len(a.danglingU16[l])) && (o == int(old(a.danglingU16[l][i])-a.base) || o == int(old(a.danglingU16[l][i])-a.base)+1)))))
 //@   assigns a.code[:], a.danglingS8, a.danglingU16
@@ -203,13 +213,13 @@ package asm
 //@   loop 3 invariant all(l, string, visited(3, l) ==> old(has(a.danglingU16, l))) && all(l, string, has(a.danglingU16, l) == (old(has(a.danglingU16, l)) && !visited(3, l)))
 //@   loop 3 invariant all(l, string, all(j, int, len(a.danglingU16[l]) == old(len(a.danglingU16[l])) && a.danglingU16[l][j] == old(a.danglingU16[l][j])))
 //@   loop 3 invariant all(l, string, visited(3, l) ==> has(a.labels, l))
-//@   loop 3 invariant all(l, string, all(i, int, visited(3, l) && 0 <= i && i < old(len(a.danglingU16[l])) ==> a.code[old(a.danglingU16[l][i])-a.base] == uint8(a.labels[l]) && a.code[old(a.danglingU16[l][i])-a.base+1] == uint8(a.labels[l]>>8)))
+//@   loop 3 invariant all(l, string, all(i, int, visited(3, l) && 0 <= i && i < old(len(a.danglingU16[l])) ==> a.code[old(a.danglingU16[l][i])-a.base] == uint8(a.labels[l]) && a.code[int(old(a.danglingU16[l][i])-a.base)+1] == uint8(a.labels[l]>>8)))
 //@   loop 3 invariant all(o, int, 0 <= o && o < len(a.code) && a.code[o] != old(a.code[o]) ==> (any(l, string, any(i, int, old(has(a.danglingS8, l)) && 0 <= i && i < old(len(a.danglingS8[l])) && o == int(old(a.danglingS8[l][i])-a.base))) || any(l, string, any(i, int, old(has(a.danglingU16, l)) && 0 <= i && i < old(len(a.danglingU16[l])) && (o == int(old(a.danglingU16[l][i])-a.base) || o == int(old(a.danglingU16[l][i])-a.base)+1)))))
 //@   loop 3 modifies a.code[:], a.danglingU16
 //@   loop 4 invariant all(l, string, all(i, int, old(has(a.danglingS8, l)) && 0 <= i && i < old(len(a.danglingS8[l])) ==> int(a.labels[l])-int(old(a.danglingS8[l][i])+1) <= 127 && int(a.labels[l])-int(old(a.danglingS8[l][i])+1) >= -128)) && all(l, string, all(i, int, old(has(a.danglingS8, l)) && 0 <= i && i < old(len(a.danglingS8[l])) ==> a.code[old(a.danglingS8[l][i])-a.base] == uint8(a.labels[l]-(old(a.danglingS8[l][i])+1)))) && all(l, string, old(has(a.danglingS8, l)) ==> has(a.labels, l))
 //@   loop 4 invariant all(j, int, 0 <= j && j < len(refs) ==> refs[j] == old(a.danglingU16[label][j])) && len(refs) == old(len(a.danglingU16[label])) && has(a.labels, label) && addr == a.labels[label] && old(has(a.danglingU16, label))
-//@   loop 4 invariant all(l, string, all(i, int, visited(3, l) && l != label && 0 <= i && i < old(len(a.danglingU16[l])) ==> a.code[old(a.danglingU16[l][i])-a.base] == uint8(a.labels[l]) && a.code[old(a.danglingU16[l][i])-a.base+1] == uint8(a.labels[l]>>8)))
-//@   loop 4 invariant all(i, int, 0 <= i && i <= rangeindex ==> a.code[old(a.danglingU16[label][i])-a.base] == uint8(a.labels[label]) && a.code[old(a.danglingU16[label][i])-a.base+1] == uint8(a.labels[label]>>8))
+//@   loop 4 invariant all(l, string, all(i, int, visited(3, l) && l != label && 0 <= i && i < old(len(a.danglingU16[l])) ==> a.code[old(a.danglingU16[l][i])-a.base] == uint8(a.labels[l]) && a.code[int(old(a.danglingU16[l][i])-a.base)+1] == uint8(a.labels[l]>>8)))
+//@   loop 4 invariant all(i, int, 0 <= i && i <= rangeindex ==> a.code[old(a.danglingU16[label][i])-a.base] == uint8(a.labels[label]) && a.code[int(old(a.danglingU16[label][i])-a.base)+1] == uint8(a.labels[label]>>8))
 //@   loop 4 invariant all(o, int, 0 <= o && o < len(a.code) && a.code[o] != old(a.code[o]) ==> (any(l, string, any(i, int, old(has(a.danglingS8, l)) && 0 <= i && i < old(len(a.danglingS8[l])) && o == int(old(a.danglingS8[l][i])-a.base))) || any(l, string, any(i, int, old(has(a.danglingU16, l)) && 0 <= i && i < old(len(a.danglingU16[l])) && (o == int(old(a.danglingU16[l][i])-a.base) || o == int(old(a.danglingU16[l][i])-a.base)+1)))))
 //@   loop 4 modifies a.code[:]
 
